@@ -64,6 +64,11 @@ var nonIdemStmts = []string{
 	"INSERT INTO ks.tbl (k, v) VALUES ('%s', toTimestamp(Now()))",
 	"update ks.tbl set C = C + 1 where k = '%s'",
 	"BEGIN BATCH INSERT INTO ks.tbl (k, v) VALUES ('y', UUID()); INSERT INTO ks.tbl (k, v) VALUES ('%s', 1) APPLY BATCH",
+	// ... with comments around what makes them non-idempotent (comments are white space; block comments do not nest)
+	"UPDATE ks.tbl SET v = 1 WHERE k = '%s' /* pk */ IF v = 0 /* only when unset */",
+	"INSERT INTO ks.tbl (k, v) /* cols */ VALUES ('%s', now()) /* vals */ -- done",
+	"BEGIN BATCH INSERT INTO ks.tbl (k, v) VALUES ('%s', 1); /* first */ INSERT INTO ks.tbl (k, v) VALUES ('y', now()); /* second */ APPLY BATCH",
+	"UPDATE ks.tbl SET c = c + 1 -- counter\n WHERE k = '%s' // end",
 }
 
 const prepIdem = "INSERT INTO ks.tbl (k, v) VALUES (?, 1)"
